@@ -6,5 +6,9 @@ EXTENDS EditDistance
 CostsQuick == {<<1, 1, 1>>, <<2, 2, 2>>, <<1, 2, 1>>, <<2, 1, 3>>, <<1, 1, 3>>, <<1, 3, 3>>, <<3, 1, 5>>, <<2, 1, 1>>}
 CostsDecl  == {<<1, 1, 1>>, <<1, 2, 1>>, <<2, 1, 3>>, <<1, 1, 3>>}
 CostsThorough == CostsQuick \cup {<<1, 2, 3>>, <<3, 1, 1>>, <<1, 3, 2>>, <<2, 3, 1>>, <<3, 3, 1>>}
+NoGiven == <<>>
+\* long strings: the uniform triple (scaled by non-dyadic factors in the harness: equal costs take the `mult` shortcut, so
+\* the result is exact whatever the common cost) and unequal ones whose ties the row machine resolves on integers
+CostsLong == {<<1, 1, 1>>, <<1, 2, 1>>, <<2, 1, 3>>, <<2, 1, 1>>}
 AllModes == {"none", "excl", "incl"}
 =============================================================================
